@@ -139,7 +139,7 @@ func main() {
 	run.Set("semantics_compiled_form_classes", sem.classes)
 	run.Set("semantics_cli_process_runs", sem.runs+fm.cases)
 	run.Set("semantics_distinct_cli_outcomes", sem.distinctOutcomes)
-	run.Set("semantics_suspended_equals_absent_compile_checks", sem.compileChecks)
+	run.Set("semantics_inprocess_compile_checks", sem.compileChecks)
 	run.Set("semantics_rule_uses_by_kind", sem.byKind)
 	run.Set("format_cases", fm.cases)
 	run.Set("library_path_cases", lb.cases)
